@@ -290,7 +290,7 @@ def dist_job(metric, dtype, rows, feats, with_out=False):
     return path
 
 
-def dist_safety_job(metric, xr, yr, outr):
+def dist_safety_job(metric, xr, yr, outr, out_dtype='float64', y_dtype=None):
     """memory safety for UNBOUNDED extents + prange independence, through the public wrapper.
     xr, yr = ranks of X and y; outr = rank of out, or None"""
     dtype = 'uint8' if metric == 'hamming' else 'float64'
@@ -299,14 +299,14 @@ def dist_safety_job(metric, xr, yr, outr):
         K = KModule('libdist', abstract=True)
         it = K.it
         X = AbstractBuf('X', [core.fresh_int('dX', 0, 2 ** 40) for _ in range(xr)], dtype)     # extents bounded by the address space
-        y = AbstractBuf('y', [core.fresh_int('dy', 0, 2 ** 40) for _ in range(yr)], dtype)
-        out = None if outr is None else AbstractBuf('out', [core.fresh_int('do', 0, 2 ** 40) for _ in range(outr)], 'float64')
+        y = AbstractBuf('y', [core.fresh_int('dy', 0, 2 ** 40) for _ in range(yr)], y_dtype or dtype)
+        out = None if outr is None else AbstractBuf('out', [core.fresh_int('do', 0, 2 ** 40) for _ in range(outr)], out_dtype)
         exc = None
         try:
             getattr(K, metric)(X, y, out)
         except (Exception, KernelAssertion) as e:
             exc = e
-        valid_ranks = (xr == 2 and yr == 1 and outr in (None, 1))
+        valid_ranks = (xr == 2 and yr == 1 and outr in (None, 1)) and out_dtype == 'float64' and y_dtype in (None, dtype)
         if exc is not None:
             name = type(exc).__name__
             ok = name in ('DataInvalid', 'ValueError', 'TypeError', 'KernelAssertion', 'IndexError')
@@ -526,6 +526,10 @@ def jobs_for(prop, tier):
                 if prop == 'C19' and not (xr == 2 and yr == 1):
                     continue
                 add('dist_safety_job', '%s-safety[X%dd,y%dd,out=%s]' % (metric, xr, yr, outr), metric=metric, xr=xr, yr=yr, outr=outr)
+            if prop == 'C13':
+                add('dist_safety_job', '%s-safety[out is float32]' % metric, metric=metric, xr=2, yr=1, outr=1, out_dtype='float32')
+                add('dist_safety_job', '%s-safety[y has another element type]' % metric, metric=metric, xr=2, yr=1, outr=None,
+                    y_dtype='int16' if metric != 'hamming' else 'int16')
     if prop == 'C18':
         for dt in (INT_DTYPES + UINT_DTYPES):
             add('bincount_job', 'bincount[%s,T=2,1x2,2x2]' % dt, dtype=dt, T=2, fa=1, fb=2, na=2, nb=2)
